@@ -6,8 +6,8 @@ only the worker pool is replaced (by a recorder of what is handed to process()) 
 ProgressLog is virtual, so that *which* progress reports reach the progress file is a generated choice.
 
 Oracle (flat, written from the definition of a tile pyramid, not from the walker):
-  required   every in-grid meta tile of a chosen level whose bbox is overlapped by the task coverage by more than
-             0.1 px (of that level) in both axes                                      -> must be handed
+  required   every in-grid meta tile of a chosen level whose bbox is overlapped (inside the grid bbox) by the task
+             coverage by more than 0.1 px (of that level) in both axes                -> must be handed
   forbidden  every meta tile farther than 0.1 px (own level) from the coverage        -> must not be handed
              (with skip_geoms_for_last_levels > 0: farther than 0.1 px from the coverage *extent*)
   resume     for every interruption point k and the progress file as it was at k:
@@ -51,8 +51,8 @@ ASSUMPTIONS = [
     'tile geometry from the exact-rational reference grid (refgrid.py) over the configured floats; grid_sizes are '
     'taken from the grid object (their correctness is C03)',
     'the documented 0.1-px inset is granted: a tile is required only if the coverage overlaps its bbox by more than 0.1 px of '
-    'its own level in both axes (in non-nesting pyramids: overlaps one of the pieces into which the tile edges of the coarser '
-    'levels cut that bbox), and forbidden only if it is farther than 0.1 px from the coverage',
+    'its own level in both axes, measured inside the grid bbox (in non-nesting pyramids: overlaps one of the pieces into which '
+    'the tile edges of the coarser levels cut that bbox), and forbidden only if it is farther than 0.1 px from the coverage',
     'with skip_geoms_for_last_levels > 0 extra tiles are only demanded to be inside the grid, of a chosen level and '
     'within 0.1 px of the coverage extent (bbox)',
     'a walk that raises GridError did not run to completion: counted as aborted, never judged',
@@ -442,6 +442,8 @@ class Coverage(object):
 
     def overlaps_by(self, rect, s):
         """is the part of the coverage inside `rect` more than `s` wide and more than `s` high?"""
+        if not (rect[2] - rect[0] > s and rect[3] - rect[1] > s):
+            return False
         for b in self.boxes:
             if min(b[2], rect[2]) - max(b[0], rect[0]) > s and min(b[3], rect[3]) - max(b[1], rect[1]) > s:
                 return True
@@ -473,7 +475,7 @@ def isect(a, b):
     return (max(a[0], b[0]), max(a[1], b[1]), min(a[2], b[2]), min(a[3], b[3]))
 
 
-def reachable(pyr, cov, E, cell, mode, last_level, allow_oog=False):
+def reachable(pyr, cov, E, cell, piece, mode, last_level, allow_oog=False):
     """Can the level-by-level descent (affected cells of the clipped bbox, in-grid, intersecting the coverage)
     reach `cell` = (cx, cy, L)?  Used only to *classify* a missing required tile.
       mode 'strict'   inset 0.1 px of every traversed level, with guard band  (=> surely reached by the walker's own rules)
@@ -482,8 +484,9 @@ def reachable(pyr, cov, E, cell, mode, last_level, allow_oog=False):
       mode 'none'     no inset
     """
     cx, cy, L = cell
-    target = isect(pyr.rect(cx, cy, L), E)
-    if not overlap_pos(grow(target, pyr.tau(L)), E):
+    # the chain of clipped bboxes has to keep (a part of) the piece of the cell that makes it required
+    target = isect(piece, E)
+    if not (target[0] < target[2] and target[1] < target[3]):
         return False
 
     def inset(z):
@@ -540,23 +543,20 @@ class _Budget(Exception):
     pass
 
 
-def classify_missing(pyr, cov, E, cell, last_level):
+def classify_missing(pyr, cov, E, cell, req_pieces, last_level):
     """root cause of a required meta cell that was not handed (None: the classification budget was exhausted)"""
     try:
-        return _classify_missing(pyr, cov, E, cell, last_level)
+        return _classify_missing(pyr, cov, E, cell, req_pieces, last_level)
     except _Budget:
         return None
 
 
-def _classify_missing(pyr, cov, E, cell, last_level):
-    if reachable(pyr, cov, E, cell, 'strict', last_level):
-        return SIG_REACHABLE
-    if reachable(pyr, cov, E, cell, 'last', last_level):
-        return SIG_INSET
-    if reachable(pyr, cov, E, cell, 'none', last_level):
-        return SIG_SPLIT
-    if reachable(pyr, cov, E, cell, 'none', last_level, allow_oog=True):
-        return SIG_GAP
+def _classify_missing(pyr, cov, E, cell, req_pieces, last_level):
+    for mode, oog, sig in (('strict', False, SIG_REACHABLE), ('last', False, SIG_INSET), ('none', False, SIG_SPLIT),
+                           ('none', True, SIG_GAP)):
+        for piece in req_pieces:
+            if reachable(pyr, cov, E, cell, piece, mode, last_level, allow_oog=oog):
+                return sig
     return SIG_UNEXPLAINED
 
 
@@ -590,7 +590,8 @@ def pieces(pyr, cell):
 
 def required_cells(pyr, cov, z):
     """flat enumeration: in-grid cells of level z whose bbox (in a non-nesting pyramid: one of its pieces between
-    the tile edges of the coarser levels) is overlapped by the coverage by more than 0.1 px of level z in both axes"""
+    the tile edges of the coarser levels) is overlapped, inside the grid bbox, by the coverage by more than 0.1 px of
+    level z in both axes.  -> [(cell, [pieces that make it required])]"""
     nx, ny = pyr.ncells(z)
     b = cov.bounds
     x0, x1 = max(0, pyr.ix(b[0], z) - 1), min(nx - 1, pyr.ix(b[2], z) + 1)
@@ -602,8 +603,9 @@ def required_cells(pyr, cov, z):
         for cy in range(y0, y1 + 1):
             if not cov.hits(pyr.rect(cx, cy, z)):
                 continue
-            if any(cov.overlaps_by(p, s) for p in pieces(pyr, (cx, cy, z))):
-                out.append((cx, cy, z))
+            req = [p for p in (isect(p, pyr.ref.bbox) for p in pieces(pyr, (cx, cy, z))) if cov.overlaps_by(p, s)]
+            if req:
+                out.append(((cx, cy, z), req))
     return out
 
 
@@ -681,11 +683,11 @@ def check_handed(env, full, pyrs, covs, Es, excuse, st_, out):
     for ti, task in enumerate(env.tasks):
         pyr, cov = pyrs[ti], covs[ti]
         for z in task.levels:
-            for cell in required_cells(pyr, cov, z):
+            for cell, req_pieces in required_cells(pyr, cov, z):
                 n_required += 1
                 if cell in handed_cells[ti]:
                     continue
-                sig = classify_missing(pyr, cov, Es[ti], cell, max(task.levels))
+                sig = classify_missing(pyr, cov, Es[ti], cell, req_pieces, max(task.levels))
                 if sig is None:
                     st_.inconclusive['missing-tile-classification-budget'] += 1
                     continue
